@@ -96,7 +96,14 @@ def _one(args):
             if n_clients == 2 and len(acts) > 1:
                 pass
             for mi in mk:
-                script[(mi, 0)] = [list(a) for a in acts]
+                if len(seqs) > 1 and len(acts) == 1:
+                    # several markets: the runner accounting is created market by market, interleaved
+                    # (A runner 1, B runner 1, ..., then A runner 2, ...)
+                    script[(mi, 0)] = [list(acts[0])]
+                    if len([x for x in seqs[mi] if x != "NEVER"]) >= 2:
+                        script[(mi, 1)] = [L.P("X2")]
+                else:
+                    script[(mi, 0)] = [list(a) for a in acts]
         else:
             # the other strategies only consult their runner accounting (a context without any order)
             for mi in mk:
@@ -216,15 +223,15 @@ def _dedup(vs, per_key=1):
 
 
 # ---- live mode (E2): closure through the real queue, removal only after an hour, recorder mode ----
-LIVE_ALPHA = (("open", 0), ("close", 0), ("open", 1), ("close", 1), ("tick", 59), ("tick", 61), ("poll",))
+LIVE_ALPHA = (("open", 0), ("close", 0), ("open", 1), ("close", 1), ("tick", 59), ("tick", 61), ("poll",), ("close", 2))  # market 2 is never seen open
 
 
 def _live_one(seq):
     from mc import livex
     from flumine.events import events
 
-    mids = ["1.100000001", "1.100000002"]
-    w = livex.LiveWorld([], strategies=("S0", "S1", "S2", "S3", "S4"), markets=mids)
+    mids = ["1.100000001", "1.100000002", "1.100000003"]
+    w = livex.LiveWorld([], strategies=("S0", "S1", "S2", "S3", "S4"), markets=mids[:2])
     w.start()
     out = []
     counts = {"clause:C20.b": 0, "clause:C20.d": 0, "clause:C20.f": 0, "live_closures": 0, "live_removals": 0, "live_reopens": 0, "live_kept_under_an_hour": 0}
@@ -247,7 +254,7 @@ def _live_one(seq):
                 calls[k] += 1
             st.process_closed_market = pcm
         # the initial books dispatched at start-up created both markets open
-        model = {m: dict(present=True, closed=False, closed_at=None) for m in mids}
+        model = {m: dict(present=(m != mids[2]), closed=False, closed_at=None) for m in mids}
         exp_calls = {0: 0, 1: 0, 2: 0, 3: 0, 4: 0}
         w.api.session = w.session  # the closure worker calls the API outside the execution pool
         fetched = {m: {"ClearedOrdersEvent": 0, "ClearedMarketsEvent": 0} for m in mids}  # since the flags were last reset
@@ -335,6 +342,8 @@ def _live_one(seq):
                 break
             counts["clause:C20.d"] += 1
             for m in fw.markets:
+                if m.closed and m.elapsed_seconds_closed is None:
+                    out.append(core.v("C20.d", ("live", "-", "closed flag", "no-closing-time"), "after %s: market %s is marked closed but carries no closing time (it can never be removed)" % (list(ev), m.market_id), case))
                 if bool(m.closed) != model[m.market_id]["closed"]:
                     out.append(core.v("C20.d", ("live", "-", "closed flag", "-"), "after %s: market %s closed=%s expected %s" % (list(ev), m.market_id, m.closed, model[m.market_id]["closed"]), case))
             counts["clause:C20.b"] += 1
